@@ -102,4 +102,117 @@ theorem clearLatest_loop (n : Nat) (o : Int) (xs : Epochs) : ∀ (acc : List Val
 theorem clearLatest_facts : Gen.Log.clearLatestSkipCmp = .gt ∧ Gen.Log.clearLatestKeepCmp = .lt := by decide
 
 
+theorem findEpoch_facts : Gen.Log.findEpochCmp = .ge := by decide
+
+theorem getElem?_enc (c : Epochs) (k : Nat) : (c.map encEpoch)[k]? = (c[k]?).map encEpoch := by simp
+
+/-- `findEpoch` at the level of its body (any fuel ≥ 12, any effect trace) -/
+theorem findEpoch_body (n : Nat) (c : Epochs) (epoch : Nat) (eff : List (String × List Val)) :
+    runBlock (exec prog noExt (n+12)) fn_leaderEpochCache_findEpoch.body
+        { env := envOf [("l", encCache c), ("epoch", .int epoch)], eff := eff } =
+      .ok (.ret [match c.findEpoch epoch with | some e => encEpoch e | none => .nil],
+        ({ env := envOf [("l", encCache c), ("epoch", .int epoch)], eff := eff } : St).set "i"
+          (.int (goSearch c.length (fun i => match c[i]? with | some e => Gen.Log.findEpochCmp.evalNat e.1 epoch | none => true)))) := by
+  simp [fn_leaderEpochCache_findEpoch, gomini, encCache]
+  rw [search_eq c.length _ (fun i => match c[i]? with | some e => Gen.Log.findEpochCmp.evalNat e.1 epoch | none => true)]
+  · simp only [Epochs.findEpoch]
+    generalize goSearch c.length (fun i => match c[i]? with | some e => Gen.Log.findEpochCmp.evalNat e.1 epoch | none => true) = j
+    by_cases hlt : j < c.length
+    · have hj : c[j]? = some c[j] := by simp [hlt]
+      simp [hlt, hj, gomini, binInt]
+    · have hj : c[j]? = none := by simp; omega
+      simp [hlt, hj, gomini, binInt]
+  · intro k hk
+    have : c[k]? = some c[k] := by simp [hk]
+    simp [gomini, this, encEpoch, binInt, findEpoch_facts, Cmp.evalNat]
+
+@[simp] theorem recv_findEpoch : fn_leaderEpochCache_findEpoch.recv = some "l" ∧ fn_leaderEpochCache_findEpoch.params = ["epoch"] := ⟨rfl, rfl⟩
+@[simp] theorem lk_LastOffsetForLeaderEpoch : evalE.lookup' "LastOffsetForLeaderEpoch" prog = some fn_leaderEpochCache_LastOffsetForLeaderEpoch := by simp [prog, gomini]
+
+
+/-- state after the loop of `ClearEarliest` (collect the entries below `o`, count them) -/
+def ceSt (o : Int) : Epochs → List Val → Int → St → St
+  | [], _, _, st => st
+  | e :: rest, acc, k, st =>
+    if e.2 < o then
+      ceSt o rest (acc ++ [encEpoch e]) (k + 1)
+        (((st.set "epoch" (encEpoch e)).set "earliest" (.list (acc ++ [encEpoch e]))).set "removed" (.int (k + 1)))
+    else ceSt o rest acc k (st.set "epoch" (encEpoch e))
+
+theorem ceSt_earliest (o : Int) (xs : Epochs) : ∀ (acc : List Val) (k : Int) (st : St), st.env "earliest" = some (.list acc) →
+    (ceSt o xs acc k st).env "earliest" = some (.list (acc ++ (xs.filter (fun e => e.2 < o)).map encEpoch)) := by
+  induction xs with
+  | nil => intro acc k st h; simp [ceSt, h]
+  | cons e rest ih =>
+    intro acc k st h
+    by_cases hlt : e.2 < o
+    · simp [ceSt, hlt]; rw [ih]; simp; simp [gomini]
+    · simp [ceSt, hlt]; rw [ih]; simp [gomini, h]
+
+theorem ceSt_removed (o : Int) (xs : Epochs) : ∀ (acc : List Val) (k : Int) (st : St), st.env "removed" = some (.int k) →
+    (ceSt o xs acc k st).env "removed" = some (.int (k + (xs.filter (fun e => e.2 < o)).length)) := by
+  induction xs with
+  | nil => intro acc k st h; simp [ceSt, h]
+  | cons e rest ih =>
+    intro acc k st h
+    by_cases hlt : e.2 < o
+    · simp [ceSt, hlt]; rw [ih]; simp; omega; simp [gomini]
+    · simp [ceSt, hlt]; rw [ih]; simp [gomini, h]
+
+theorem ceSt_frame (o : Int) (xs : Epochs) (y : String) (hy1 : y ≠ "earliest") (hy2 : y ≠ "epoch") (hy3 : y ≠ "removed") :
+    ∀ (acc : List Val) (k : Int) (st : St), (ceSt o xs acc k st).env y = st.env y := by
+  induction xs with
+  | nil => intro acc k st; rfl
+  | cons e rest ih =>
+    intro acc k st
+    by_cases hlt : e.2 < o <;> simp [ceSt, hlt, ih, gomini, hy1, hy2, hy3]
+
+theorem ceSt_eff (o : Int) (xs : Epochs) : ∀ (acc : List Val) (k : Int) (st : St), (ceSt o xs acc k st).eff = st.eff := by
+  induction xs with
+  | nil => intro acc k st; rfl
+  | cons e rest ih =>
+    intro acc k st
+    by_cases hlt : e.2 < o <;> simp [ceSt, hlt, ih, gomini]
+
+theorem clearEarliest_loop (n : Nat) (o : Int) (xs : Epochs) : ∀ (acc : List Val) (k : Int) (i : Nat) (st : St),
+    st.env "earliest" = some (.list acc) → st.env "removed" = some (.int k) → st.env "offset" = some (.int o) →
+    runRange (runBlock (exec prog noExt (n+6))
+        [(.ite [] (.bin "<" (.sel (.var "epoch") "startOffset") (.var "offset"))
+          [(.assign [(.var "earliest")] [(.call "append" [(.var "earliest"), (.var "epoch")])]),
+           (.opAssign "+" (.var "removed") (.int 1))] [])])
+      none (some "epoch") i (xs.map encEpoch) st = .ok (.next, ceSt o xs acc k st) := by
+  induction xs with
+  | nil => intro acc k i st _ _ _; simp [gomini, ceSt]
+  | cons e rest ih =>
+    intro acc k i st h1 h2 h3
+    by_cases hlt : e.2 < o
+    · have := ih (acc ++ [encEpoch e]) (k + 1) (i+1)
+        (((st.set "epoch" (encEpoch e)).set "earliest" (.list (acc ++ [encEpoch e]))).set "removed" (.int (k + 1)))
+        (by simp [gomini]) (by simp [gomini]) (by simp [gomini, h3])
+      simpa [gomini, ceSt, encEpoch, h1, h2, h3, binInt, hlt, builtin] using this
+    · have := ih acc k (i+1) (st.set "epoch" (encEpoch e)) (by simp [gomini, h1]) (by simp [gomini, h2]) (by simp [gomini, h3])
+      simpa [gomini, ceSt, encEpoch, h1, h2, h3, binInt, hlt, builtin] using this
+
+theorem clearEarliest_facts : Gen.Log.clearEarliestSkipCmp = .ge := by decide
+
+theorem encCache_drop (c : Epochs) (k : Nat) : (List.map encEpoch c).drop k = List.map encEpoch (c.drop k) := by
+  simp [List.map_drop]
+
+theorem earliestOffset_body_drop (n : Nat) (c : Epochs) (k : Nat) (eff : List (String × List Val)) :
+    runBlock (exec prog noExt (n+8)) fn_leaderEpochCache_earliestOffset.body
+        { env := envOf [("l", .struct [("epochOffsets", .list (List.drop k (List.map encEpoch c)))])], eff := eff } =
+      .ok (.ret [.int (Epochs.earliestOffset (c.drop k))],
+        { env := envOf [("l", .struct [("epochOffsets", .list (List.drop k (List.map encEpoch c)))])], eff := eff }) := by
+  have := earliestOffset_body n (c.drop k) eff
+  simpa [encCache, List.map_drop] using this
+
+theorem earliestOffset_body' (n : Nat) (c : Epochs) (eff : List (String × List Val)) :
+    runBlock (exec prog noExt (n+8)) fn_leaderEpochCache_earliestOffset.body
+        { env := envOf [("l", .struct [("epochOffsets", .list (List.map encEpoch c))])], eff := eff } =
+      .ok (.ret [.int c.earliestOffset], { env := envOf [("l", .struct [("epochOffsets", .list (List.map encEpoch c))])], eff := eff }) := by
+  simpa [encCache] using earliestOffset_body n c eff
+
+@[simp] theorem lk_ClearEarliest : evalE.lookup' "ClearEarliest" prog = some fn_leaderEpochCache_ClearEarliest := by simp [prog, gomini]
+
+
 end Liftbridge.Props.GoEpochCache
